@@ -34,6 +34,11 @@ class ParaxialRays(BaseRays):
         self.z += t
         self.y += t * self.u
 
+    def translate(self, dx: float, dy: float, dz: float):
+        """Shift the rays along the axis. First-order properties do not
+        depend on the decentre of a surface (just as tilts are ignored)."""
+        self.z += dz
+
     def rotate_x(self, rx: float):
         """Rotate the rays about the x-axis."""
         pass  # pragma: no cover
